@@ -337,7 +337,7 @@ func carriers(x *sched.Exec) string {
 	return strings.Join(out, ",")
 }
 
-var budgetSec = 120
+var budgetSec = 240
 
 // Guards for the generated families (thousands of scenarios): a changed tree can multiply the
 // choice points per request, so each family scenario is capped in executions and each worker
@@ -575,7 +575,7 @@ func main() {
 		if v := os.Getenv("C11_BUDGET"); v != "" {
 			budgetSec, _ = strconv.Atoi(v)
 		}
-		if budgetSec > 120 { // thorough
+		if budgetSec > 240 { // thorough
 			famMaxExecs, famCPUSec = 30000, 1500
 		}
 		pool.Serve(map[string]pool.Handler{"explore": explore})
@@ -632,6 +632,23 @@ func main() {
 			}
 		}
 	}
+	// heaviest hand-written scenarios first (access granularity, higher bound, middleware chains and
+	// the template engine take the most steps), so that they start at once and own a core
+	weight := func(sh pool.Shard) int {
+		sc := sh.Arg.([]scenario)[0]
+		w := sc.Bound * 100
+		if sc.Bound < 0 {
+			w = 250
+		}
+		if !sc.GateOnly {
+			w += 1000
+		}
+		if strings.Contains(sc.Tmpl, "middleware") || sc.Tmpl == "view-render" {
+			w += 60
+		}
+		return w
+	}
+	sort.SliceStable(shards, func(i, j int) bool { return weight(shards[i]) > weight(shards[j]) })
 	// deal the family scenarios round-robin into batches so that every batch gets the same mix
 	nb := (len(small) + 23) / 24
 	if nb > 0 {
